@@ -78,6 +78,9 @@ var preds = []pred{
 	{"isF", func(t lexer.Token) bool { return t.Type == tF }},
 	{"isX", func(t lexer.Token) bool { return t.Type == tX }},
 	{"isY", func(t lexer.Token) bool { return t.Type == tY }},
+	// predicates may look at anything, not only the type: tokens at odd / at one particular position
+	{"oddPosition", func(t lexer.Token) bool { return t.Pos.Offset%2 == 1 }},
+	{"isThird", func(t lexer.Token) bool { return t.Pos.Offset == 2 && !t.EOF() }},
 }
 
 // model over the token slice T (T[n] = EOF) and elision set
@@ -447,6 +450,113 @@ func (e *explorer) run() {
 	}
 }
 
+// runLong: streams with very long runs of elided tokens (lengths around 2^8 and 2^16: anything that keeps a
+// distance or a count in a narrow integer wraps there). A fixed walk instead of the full search, and only
+// the cheap observations (no Range over all pairs).
+func runLong(w *hx.Worker, n int) {
+	var toks []lexer.Token
+	add := func(t lexer.TokenType, v string) {
+		toks = append(toks, lexer.Token{Type: t, Value: v, Pos: lexer.Position{Offset: len(toks), Line: 1, Column: len(toks) + 1}})
+	}
+	add(tX, "X")
+	for i := 0; i < n; i++ {
+		add(tE, "e")
+	}
+	add(tY, "Y")
+	add(tF, "f")
+	add(tX, "X")
+	toks = append(toks, lexer.EOFToken(lexer.Position{Offset: len(toks), Line: 1, Column: len(toks) + 1}))
+	m := &model{T: toks, elide: map[lexer.TokenType]bool{tE: true, tF: true}, n: len(toks) - 1}
+	key := fmt.Sprintf("long stream X e^%d Y f X", n)
+	w.Count("evaluations", 1)
+	pan, msg := hx.Guard(func() {
+		pl, err := lexer.Upgrade(&sliceLexer{toks: toks}, tE, tF)
+		if err != nil {
+			panic(err)
+		}
+		all := pl.Range(0, lexer.RawCursor(len(toks)))
+		r := 0
+		step := 0
+		check := func(what string) bool {
+			step++
+			w.Count("states", 1)
+			got := fmt.Sprint(int(pl.RawCursor()), pl.Cursor(), pl.Peek().Pos.Offset, pl.RawPeek().Pos.Offset)
+			want := fmt.Sprint(r, m.cur(r), m.ne(r), r)
+			for _, p := range preds[:4] {
+				c := *pl
+				_, rc := c.PeekAny(p.f)
+				got += fmt.Sprint(" ", int(rc))
+				want += fmt.Sprint(" ", m.peekAny(r, p.f))
+			}
+			if got != want {
+				w.Violate(hx.Violation{Key: key + fmt.Sprintf(" :: step %d (%s)", step, what), Class: "long-run", Detail: map[string]any{"raw,cursor,peek,rawpeek,PeekAny(never,always,isE,isF)": got, "expected": want}})
+				return false
+			}
+			return true
+		}
+		_ = all
+		next := func() {
+			pl.Next()
+			if e := m.ne(r); e < m.n {
+				r = e + 1
+			}
+		}
+		if !check("fresh") {
+			return
+		}
+		cp0, r0 := pl.MakeCheckpoint(), r
+		next() // X
+		if !check("Next") {
+			return
+		}
+		cp1, r1 := pl.MakeCheckpoint(), r
+		next() // Y, over the run
+		if !check("Next over the run") {
+			return
+		}
+		pl.LoadCheckpoint(cp1)
+		r = r1
+		if !check("LoadCheckpoint before the run") {
+			return
+		}
+		// into the middle of the run: FastForward to the cursor PeekAny(isE) returns, a few times
+		for k := 0; k < 3; k++ {
+			_, rc := pl.PeekAny(preds[2].f)
+			pl.FastForward(rc)
+			if int(rc) < m.n {
+				r = int(rc) + 1
+			} else {
+				r = int(rc)
+			}
+			if !check("FastForward into the run") {
+				return
+			}
+		}
+		cp2, r2 := pl.MakeCheckpoint(), r
+		next()
+		next()
+		next()
+		next()
+		if !check("Next to EOF and beyond") {
+			return
+		}
+		pl.LoadCheckpoint(cp2)
+		r = r2
+		if !check("LoadCheckpoint inside the run") {
+			return
+		}
+		pl.LoadCheckpoint(cp0)
+		r = r0
+		check("LoadCheckpoint at the start")
+	})
+	if pan {
+		w.Violate(hx.Violation{Key: key, Class: "panic", Detail: map[string]any{"panic": msg}})
+	}
+	w.DistinctS(key)
+}
+
+var longRuns = []int{254, 255, 256, 257, 65534, 65535, 65536, 65537, 70000, 131072, 131073}
+
 type jobT struct{ stream, elide string }
 
 func jobs(maxLen int) []jobT {
@@ -483,21 +593,37 @@ func plan(c *hx.Ctx) *hx.Plan {
 	}
 	js := jobs(maxLen)
 	return &hx.Plan{
-		N: len(js),
+		N: len(js) + len(longRuns),
 		Job: func(w *hx.Worker, i int) {
+			if i >= len(js) {
+				runLong(w, longRuns[i-len(js)])
+				return
+			}
 			w.Case(func() string { return fmt.Sprintf("stream=%q elide=%q", js[i].stream, js[i].elide) })
 			(&explorer{w: w, stream: js[i].stream, elide: js[i].elide}).run()
 		},
-		Describe: func(i int) string { return fmt.Sprintf("stream=%q elide=%q", js[i].stream, js[i].elide) },
-		Rule:     "every token stream of length <= bound over {X,Y (ordinary), e,f (elidable)} x elision sets {ef, e, none, ef+EOF} (+ for streams below the bound: two further numberings of the token types in which ordinary and elided types are congruent modulo 32/64/128/256; the slice passed to Upgrade is overwritten by the caller afterwards); per stream BFS to a FIXPOINT over Next, FastForward(c) for every c (model equality for cursors a PeekAny returns, invariants for others), Save/Load of 2 checkpoint slots; in every reachable state all of Peek, RawPeek, Cursor, RawCursor, PeekAny x 6 predicates and Range(i,j) for all i<=j are compared with the model. evaluations = (stream, elision set) pairs; distinct_nontrivial = distinct (stream, elision, reachable-state-count) triples; states/transitions = real-object states visited / operations executed",
-		Bounds:   map[string]any{"max_stream_len": maxLen, "checkpoint_slots": 2, "predicates": len(preds), "search": "fixpoint (not depth bounded)"},
-		Assume:   []string{"token identity is observed through pointer identity into the lexer's own token slice (Range)", "streams longer than the bound behave like shorter ones (small-scope hypothesis)"},
+		Describe: func(i int) string {
+			if i >= len(js) {
+				return fmt.Sprintf("long stream X e^%d Y f X", longRuns[i-len(js)])
+			}
+			return fmt.Sprintf("stream=%q elide=%q", js[i].stream, js[i].elide)
+		},
+		Rule:   "every token stream of length <= bound over {X,Y (ordinary), e,f (elidable)} x elision sets {ef, e, none, ef+EOF} (+ for streams below the bound: two further numberings of the token types in which ordinary and elided types are congruent modulo 32/64/128/256; the slice passed to Upgrade is overwritten by the caller afterwards); per stream BFS to a FIXPOINT over Next, FastForward(c) for every c (model equality for cursors a PeekAny returns, invariants for others), Save/Load of 2 checkpoint slots; in every reachable state all of Peek, RawPeek, Cursor, RawCursor, PeekAny x 8 predicates (by type, by position) and Range(i,j) for all i<=j are compared with the model. plus a fixed walk (Next, checkpoints, FastForward into the run) over streams with runs of 254..131073 elided tokens. evaluations = (stream, elision set) pairs; distinct_nontrivial = distinct (stream, elision, reachable-state-count) triples; states/transitions = real-object states visited / operations executed",
+		Bounds: map[string]any{"max_stream_len": maxLen, "checkpoint_slots": 2, "predicates": len(preds), "search": "fixpoint (not depth bounded)"},
+		Assume: []string{"token identity is observed through pointer identity into the lexer's own token slice (Range)", "streams longer than the bound behave like shorter ones (small-scope hypothesis)"},
 	}
 }
 
 func replay(c *hx.Ctx, key string) []hx.Violation {
 	// key: stream="..." elide="..." ops= ...   (ops are informational; the whole stream's state space is re-explored)
 	var stream, elide string
+	if strings.HasPrefix(key, "long stream X e^") {
+		var n int
+		fmt.Sscanf(key, "long stream X e^%d", &n)
+		w := hx.NewReplayWorker()
+		runLong(w, n)
+		return w.Violations()
+	}
 	if i := strings.Index(key, "stream="); i >= 0 {
 		rest := key[i+7:]
 		q, err := strconv.QuotedPrefix(rest)
